@@ -43,3 +43,17 @@ Theorem C05_route_lists : forall alg p g0 g1 g1',
     Forall (fun r => route_ok g0 g2 r /\ chain_y_eq g2 (layer_spacing p) (snd r)) routes.
 Proof. exact pipeline_route_geometry. Qed.
 Print Assumptions C05_route_lists.
+
+(* ---------- end to end (Proofs/E2E*.v, Whole*.v, NS*.v, Final.v): no premise besides hypotheses on the input ---------- *)
+From Autog Require Import Pipeline E2EBackbone E2EOutput WholeCrossings WholeOverlap WholeLayout Final.
+Local Open Scope Q_scope.
+
+
+(* [E3_statement g g'] (Proofs/E2EOutput.v): for every non-self-loop edge, with u its end in the upper band and l
+   its end in the lower band: the route is not empty, its first point is the bottom-centre of u, its last point
+   the top-centre of l; if the edge is not flagged, u is its source and l its target; if it is flagged
+   ArrowHeadStart, u is its target and l its source — the arrow-head end is always at the target *)
+Theorem C05_component_end_to_end : forall o g g' x, component_input g -> options_ok o ->
+  layout_component o g = Ok (g', x) -> E3_statement g g'.
+Proof. exact G3_endpoints. Qed.
+Print Assumptions C05_component_end_to_end.
